@@ -123,7 +123,7 @@ def corpus():
     # drv_C08 runs the estimator-parametric model (Sorted.scheduleCallEst), the dict the estimator returned is an
     # input of every model call
     return B.corpus() + [_site_limit_history("greedy", False), _site_limit_history("greedy", True, "lcfs"),
-                         _site_limit_history("rr", False)] + _est_corpus()
+                         _site_limit_history("rr", False)] + _est_corpus() + _multi_corpus()
 
 
 def _est_corpus():
@@ -502,6 +502,161 @@ def enumerate_est_histories():
     return out
 
 
+# ---- one algorithm object, several networks: generator ------------------------------------------------------------
+
+MULTI_EVSES = [{"t": "cont", "min": 0, "max": 16}, {"t": "cont", "min": 0, "max": 24}, {"t": "cont", "min": 0, "max": 40},
+               {"t": "cont", "min": 0, "max": 48}, {"t": "cont", "min": 0, "max": 64}, {"t": "cont", "min": 0, "max": 80},
+               {"t": "finite", "rates": [0, 8, 16]}, {"t": "finite", "rates": [0, 6, 12, 18, 24, 30]},
+               {"t": "finite", "rates": [0, 10, 20]}, {"t": "finite", "rates": [0, 16]},
+               {"t": "finite", "rates": [0, 8, 16, 24, 32, 40]}, {"t": "finite", "rates": [0] + list(range(6, 17))},
+               {"t": "finite", "rates": [0, 12.5, 16, 24]}, {"t": "finite", "rates": [0, 8, 16, 24, 32, 40, 48]}]
+
+
+class _evse_pool:
+    """while generating the networks of a multi-network chain, half of the EVSEs come from MULTI_EVSES (maximum pilots
+    other than 32 A), so that a station id that is re-used mostly has ANOTHER maximum pilot / class in the next network.
+    (`C07._gen_stations` looks `_gen_evse` up in its module at call time; restored on exit; C07's streams never run
+    inside this block.)"""
+
+    def __enter__(self):
+        self.old = B._gen_evse
+        old = self.old
+
+        def pick(rng, exact):
+            if rng.random() < 0.5:
+                return copy.deepcopy(rng.choice(MULTI_EVSES))
+            return old(rng, exact)
+
+        B._gen_evse = pick
+
+    def __exit__(self, *a):
+        B._gen_evse = self.old
+
+
+def _use_sessions(u):
+    evs = u["evs"] if u["mode"] == "sim" else [ev for c in u["calls"] for ev in c["evs"]]
+    seen, out = set(), []
+    for ev in evs:
+        if ev["session"] not in seen:
+            seen.add(ev["session"])
+            out.append((ev["session"], ev["station"]))
+    return out
+
+
+def _align_sessions(rng, a, b):
+    """make the FIRST call of b carry exactly the session ids of the first call of a (assigned at random, so the
+    priority order among them differs): the same SET of session ids on another network"""
+    ea, eb = a["calls"][0]["evs"], b["calls"][0]["evs"]
+    m = min(len(ea), len(eb))
+    if m < 2:
+        return False
+    keep_a = rng.sample([e["session"] for e in ea], m)
+    keep_b = rng.sample([e["session"] for e in eb], m)
+    a["calls"][0]["evs"] = [e for e in ea if e["session"] in keep_a]
+    targets = list(keep_a)
+    rng.shuffle(targets)
+    ren = dict(zip(keep_b, targets))
+    for k, call in enumerate(b["calls"]):
+        if k == 0:
+            call["evs"] = [e for e in call["evs"] if e["session"] in keep_b]
+        for e in call["evs"]:
+            e["session"] = ren.get(e["session"], "b-" + e["session"])
+    for u in (a, b):
+        c0 = u["calls"][0]
+        c0["order"] = list(range(len(c0["evs"])))
+        rng.shuffle(c0["order"])
+    return True
+
+
+def _multi_est_spec(rng, uses):
+    """one table for the whole chain: keys are the session ids of every use (the ids overlap between the uses)"""
+    table, used = {}, set()
+    for u in uses:
+        by_id = {s["id"]: s for s in u["stations"]}
+        for sid, stid in _use_sessions(u):
+            used.add(sid)
+            if sid not in table and rng.random() < 0.85:
+                table[sid] = [B._gen_bound(rng, by_id[stid]) for _ in range(rng.choice([1, 2, 3]))]
+    if rng.random() < 0.5:
+        table[rng.choice(["ghost-1", "", "sess-999"])] = [rng.choice([0, 1, 5, 100])]
+    if rng.random() < 0.5:
+        st = rng.choice(uses[-1]["stations"])["id"]
+        if st not in used:
+            table[st] = [rng.choice([0, 0, 1, 3, 6.5])]
+    return {"table": table}
+
+
+def _gen_multi(rng, groups):
+    """per group: three independently drawn networks A, B, C (station ids st-0.. re-used, other EVSE classes, maximum
+    pilots, voltages, lines, constraints, sessions; each used through direct calls, a network history or a whole
+    simulation) and ONE algorithm configuration; four cases: B after A, A after B (the reverse order), C after A and B
+    (three in a row), A after A and B (return to the first network)"""
+    out = []
+    for g in range(groups):
+        exact = g % 6 == 5
+        cfg = B._gen_algo(rng, exact)
+        r = rng.random()
+        cfg["algo"] = "uncontrolled" if r < 0.25 else ("greedy" if r < 0.63 else "rr")
+        if cfg["algo"] == "uncontrolled":
+            cfg.update({"sort": "fcfs", "uninterrupted": False, "estimate": False})
+        else:
+            cfg["estimate"] = rng.random() < 0.6
+        cfg["ramp"] = {"up": rng.choice([1, 1, 0.5, 2]), "down": rng.choice([1, 1, 0.5, 2]), "inc": rng.choice([1, 1, 0.5, 3])}
+        modes = [rng.choice(["direct", "history"] if exact else ["direct", "history", "history", "sim"]) for _ in range(3)]
+        uses = []
+        with _evse_pool():
+            for m in modes:
+                u = B._gen_sim(rng) if m == "sim" else (_gen_history(rng, exact) if m == "history" else B._gen_direct(rng, exact))
+                for k in CFG_KEYS + ("roundtrip_at",):
+                    u.pop(k, None)
+                if cfg["algo"] == "uncontrolled":
+                    u.pop("updates", None)
+                uses.append(u)
+        aligned = False
+        if modes[0] != "sim" and modes[1] != "sim" and rng.random() < 0.6:
+            aligned = _align_sessions(rng, uses[0], uses[1])
+        if cfg["estimate"] and cfg["algo"] != "uncontrolled":
+            r = rng.random()
+            if r >= 0.4:          # a table estimator: the SAME estimator object for every network
+                cfg["est_spec"] = _multi_est_spec(rng, uses)
+                if r >= 0.7 and "sim" not in modes:
+                    cfg["est_spec"]["stateful"] = True
+        a, b, c = uses
+        for kind, chain in (("second", [a, b]), ("reverse", [b, a]), ("three", [a, b, c]), ("return", [a, b, a])):
+            case = copy.deepcopy(chain[-1])
+            case.update(copy.deepcopy(cfg))
+            case["prior_uses"] = copy.deepcopy(chain[:-1])
+            case["multi"] = kind + (":same_session_ids" if aligned else "")
+            out.append(case)
+    return out
+
+
+def _multi_corpus():
+    """two small networks that share the station ids st-0 / st-1 with the EVSE classes swapped, other maximum pilots
+    and voltages, another pod limit, and the SAME session ids in the opposite priority order; every algorithm; second
+    use, reverse order, return to the first network"""
+    def use(evses, volt, lim, arrivals, t):
+        stations = [{"id": f"st-{j}", "line": "AB", "evse": e, "volt": volt, "phase": 0.0} for j, e in enumerate(evses)]
+        evs = [{"session": f"sess-{j}", "station": f"st-{j}", "arrival": arrivals[j], "departure": t + 9 - j,
+                "est": t + 3 + 2 * arrivals[j], "requested": 30.0, "delivered": 1.0 + j, "prev_pilot": 0, "rate": 0,
+                "max_override": None} for j in range(len(evses))]
+        return {"mode": "direct", "period": 5, "stations": stations,
+                "constraints": [{"name": "pod", "coef": {s["id"]: 1.0 for s in stations}, "limit": lim}],
+                "calls": [{"time": t, "evs": evs, "order": list(range(len(evs)))}]}
+    a = use([{"t": "cont", "min": 0, "max": 32}, {"t": "finite", "rates": B.CC}], 208, 40.0, [0, 1], 4)
+    b = use([{"t": "finite", "rates": [0, 8, 16]}, {"t": "cont", "min": 0, "max": 48}, {"t": "cont", "min": 0, "max": 24}],
+            240, 50.0, [2, 1, 0], 4)
+    out = []
+    for algo, sort, un in (("uncontrolled", "fcfs", False), ("greedy", "fcfs", False), ("greedy", "edf", True),
+                           ("rr", "lcfs", False)):
+        cfg = {"algo": algo, "sort": sort, "uninterrupted": un, "estimate": False, "inc": 1,
+               "ramp": {"up": 1, "down": 1, "inc": 1}}
+        for kind, chain in (("second", [a, b]), ("reverse", [b, a]), ("return", [a, b, a])):
+            out.append(dict(copy.deepcopy(chain[-1]), **cfg, prior_uses=copy.deepcopy(chain[:-1]),
+                            multi=kind + ":same_session_ids"))
+    return out
+
+
 def generate(rng, n, tier):
     out = []
     if tier == "thorough":
@@ -525,6 +680,8 @@ def generate(rng, n, tier):
     # arbitrary estimators: a private generator seeded AFTER the stream above (which is therefore unchanged)
     import random as _random
     out.extend(_gen_est(_random.Random(rng.getrandbits(64)), max(40, n // 5)))
+    # one algorithm object, several networks: a further private generator, seeded after both streams above
+    out.extend(_gen_multi(_random.Random(rng.getrandbits(64)), max(24, n // 28)))
     return out
 
 
@@ -583,14 +740,20 @@ def stateful_answer(spec, seen, ncalls, handed):
 def _run_history(case):
     """`C07._run_direct` with network mutations between the calls: ONE network, ONE Simulator, ONE Interface and
     ONE algorithm object for the whole history; every schedule() goes through the recorder of C07."""
-    (_, _, Simulator, EventQueue, _, _, _, _, _) = B._imports()
-    from acnportal.acnsim.models import EV, Battery
     net = B.build_network(case)
     rec = B._Recorder(case, net)
     rec.dynamic = True          # every call records the constraint view the Interface hands out (model input)
     algo = rec.make()
     if case["estimate"] and (case.get("est_spec") or {}).get("stateful") and case["algo"] != "uncontrolled":
         algo.max_rate_estimator = make_stateful_estimator(case["est_spec"], rec)     # before register_interface
+    return _drive_direct(case, net, rec, algo)
+
+
+def _drive_direct(case, net, rec, algo):
+    """the direct calls of `case` on network `net` through the GIVEN algorithm object (a new Simulator registers a new
+    Interface with it); `rec.calls` receives the recordings"""
+    (_, _, Simulator, EventQueue, _, _, _, _, _) = B._imports()
+    from acnportal.acnsim.models import EV, Battery
     sim = Simulator(net, algo, EventQueue(), datetime(2020, 1, 1), period=case["period"], verbose=False)
     iface = algo.interface
     obs = {"infra": B.infra_obs(iface), "calls": rec.calls, "mode": "direct"}
@@ -631,7 +794,80 @@ def _run_history(case):
     return obs
 
 
+def _drive_sim(case, net, rec, algo):
+    """a whole `Simulator.run` of `case` on network `net` with the GIVEN algorithm object as scheduler (`C07._run_sim`
+    without the crash / resume branch); same observation format"""
+    import warnings
+    (_, _, Simulator, EventQueue, _, PluginEvent, _, _, _) = B._imports()
+    algo.max_recompute = int(case.get("max_recompute") or 1)      # public attribute, set before the Simulator is built
+    events = EventQueue()
+    evs = []
+    for e in case["evs"]:
+        ev = I.make_ev(e)
+        evs.append(ev)
+        events.add_event(PluginEvent(e["arrival"], ev))
+    sim = Simulator(net, algo, events, datetime(2020, 1, 1), period=case["period"], verbose=False)
+    obs = {"infra": B.infra_obs(algo.interface), "calls": rec.calls, "mode": "sim"}
+    err = None
+    with warnings.catch_warnings(record=True) as wlist:
+        warnings.simplefilter("always")
+        try:
+            sim.run()
+        except B._Captured as e:
+            err = "scheduler:" + str(e)
+        except Exception as e:  # noqa
+            err = I.err_name(e) + ":" + str(e)[:200]
+    obs["sim_err"] = err
+    obs["warnings"] = sorted({str(w.message)[:120] for w in wlist if "Invalid schedule" in str(w.message)})
+    obs["energies"] = [[ev.session_id, float(ev.requested_energy), float(ev.energy_delivered)] for ev in evs]
+    obs["iterations"] = int(sim.iteration)
+    w = min(int(sim.iteration), sim.pilot_signals.shape[1])
+    obs["pilots"] = [[float(x) for x in row[:w]] for row in sim.pilot_signals]
+    obs["rates"] = [[float(x) for x in row[:min(w, sim.charging_rates.shape[1])]] for row in sim.charging_rates]
+    return obs
+
+
+# ---- ONE ALGORITHM OBJECT, SEVERAL NETWORKS ---------------------------------------------------------------------
+# A case with "prior_uses": [use, ...] is an ordinary C08 case (direct calls, a network history or a whole simulation:
+# the JUDGED use, on the case's own stations / constraints / sessions) whose algorithm object has been used before, in
+# this order, for the networks of `prior_uses` (each a case body without the algorithm configuration: "mode", "period",
+# "stations", "constraints", "calls" | "evs" [, "updates", "max_recompute"]).  For every use a new ChargingNetwork and
+# a new Simulator are built and the SAME algorithm object is handed to the Simulator (which registers a new Interface
+# with it).  Estimators: a table estimator (stateless or stateful) is the same object throughout (what it returns is an
+# input of the model and of the oracle); SimpleRampdown's dict is estimator STATE (an input of the property): the
+# caller installs a fresh SimpleRampdown on the algorithm object before each further use.
+
+CFG_KEYS = ("algo", "sort", "uninterrupted", "estimate", "inc", "ramp", "est_spec")
+
+
+def _run_multi(case):
+    Ramp = B._imports()[8]
+    final = {k: v for k, v in case.items() if k != "prior_uses"}
+    uses = [dict(u, **{k: case[k] for k in CFG_KEYS if k in case}) for u in case["prior_uses"]] + [final]
+    rec = B._Recorder(final, None)
+    rec.crash_at = None
+    algo = rec.make()
+    controlled = case["algo"] != "uncontrolled"
+    if controlled and case["estimate"] and (case.get("est_spec") or {}).get("stateful"):
+        algo.max_rate_estimator = make_stateful_estimator(case["est_spec"], rec)
+    rampdown = controlled and case["estimate"] and case.get("est_spec") is None
+    obs, prior = None, []
+    for n, u in enumerate(uses):
+        if n > 0 and rampdown:
+            algo.max_rate_estimator = Ramp(case["ramp"]["up"], case["ramp"]["down"], case["ramp"]["inc"])
+        net = B.build_network(u)
+        rec.net, rec.calls, rec.dynamic, rec.order_log, rec.est_log = net, [], True, None, None
+        obs = (_drive_sim if u["mode"] == "sim" else _drive_direct)(u, net, rec, algo)
+        if n < len(uses) - 1:
+            prior.append({"mode": u["mode"], "calls": len(obs["calls"]),
+                          "errs": sum(1 for c in obs["calls"] if c["err"] is not None), "sim_err": obs.get("sim_err")})
+    obs["prior"] = prior
+    return obs
+
+
 def run_impl(case):
+    if case.get("prior_uses") is not None:
+        return _run_multi(case)
     if case["mode"] == "direct" and any("ops" in c for c in case["calls"]):
         return _run_history(case)
     return B.run_impl(case)
@@ -786,6 +1022,21 @@ def _own_bounds(case, c, inf, idx, period, surv, feasible, n):
     return out
 
 
+def _multi_infra_diff(case, inf):
+    """the Interface's infrastructure view vs the stations of the case (continuous-from-0 and finite-rate EVSEs)"""
+    mu_ids = [st["id"] for st in case["stations"]]
+    if inf["ids"] != mu_ids:
+        return f"stations {inf['ids']} != {mu_ids}"
+    for i, st in enumerate(case["stations"]):
+        if st["evse"]["t"] not in ("cont", "finite"):
+            continue
+        if I.num(inf["maxp"][i]) != B._max_of(st["evse"]) or inf["volt"][i] != float(st["volt"]) \
+                or inf["cont"][i] != (st["evse"]["t"] == "cont"):
+            return (f"station {st['id']}: max pilot {inf['maxp'][i]} voltage {inf['volt'][i]} continuous {inf['cont'][i]}, "
+                    f"registered as {st['evse']} at {st['volt']} V")
+    return None
+
+
 def oracle(case, obs):
     fails = []
     inf = obs["infra"]
@@ -794,6 +1045,12 @@ def oracle(case, obs):
     period = case["period"]
     inf0 = inf
     truth = _Truth(case)
+    if case.get("prior_uses") is not None:
+        # the algorithm object served other networks before: everything below is judged against THIS case's network;
+        # the infrastructure the oracle reads (station order, maximum pilots, voltages, EVSE class) must be this case's
+        mu_bad = _multi_infra_diff(case, inf)
+        if mu_bad:
+            return [{"kind": "infrastructure_view_not_of_current_network", "detail": mu_bad}]
     if case["mode"] == "direct" and len(obs["calls"]) != len(case["calls"]):
         return [{"kind": "history_not_recorded", "detail": f"{len(case['calls'])} calls made, {len(obs['calls'])} recorded"}]
     for k, c in enumerate(obs["calls"]):
@@ -987,6 +1244,33 @@ def _est_own_features(case, obs, c, idx):
     return out
 
 
+def _multi_features(case, obs):
+    out = ["multi:" + case["multi"].split(":")[0], "multi_uses:%d" % (len(case["prior_uses"]) + 1),
+           "multi_algo:" + case["algo"], "multi_judged_use:" + case["mode"] + (":history" if case.get("history") else ""),
+           "multi_estimator:" + ("none" if not case["estimate"] else "rampdown_fresh_per_use" if case.get("est_spec") is None
+                                 else "table_stateful_same_object" if case["est_spec"].get("stateful") else "table_same_object")]
+    for p in obs.get("prior") or []:
+        out.append("multi_prior_use:" + p["mode"] + (":with_scheduler_error" if p["errs"] or p["sim_err"] else ""))
+    prev = {st["id"]: st for st in case["prior_uses"][-1]["stations"]}
+    if case["mode"] == "sim":
+        busy = {e["station"] for e in case["evs"]}
+    else:
+        busy = {e["station"] for c in case["calls"] for e in c["evs"]}
+    shared = [st for st in case["stations"] if st["id"] in prev and st["id"] in busy]
+    out.append("multi_shared_busy_stations:%s" % ("0" if not shared else "1" if len(shared) == 1 else ">=2"))
+    if shared:
+        out.append("multi_shared_station_other_max_pilot:%s" % any(B._max_of(st["evse"]) != B._max_of(prev[st["id"]]["evse"]) for st in shared))
+        out.append("multi_shared_station_class_flips:%s" % any((st["evse"]["t"] == "finite") != (prev[st["id"]]["evse"]["t"] == "finite") for st in shared))
+        out.append("multi_shared_station_other_voltage:%s" % any(st["volt"] != prev[st["id"]]["volt"] for st in shared))
+    out.append("multi_station_count:%s" % ("same" if len(prev) == len(case["stations"]) else "differs"))
+    pu = case["prior_uses"][-1]
+    if pu["mode"] == "direct" and case["mode"] == "direct":
+        seen = {frozenset(e["session"] for e in c["evs"]) for c in pu["calls"]}
+        out.append("multi_same_session_id_set_as_a_call_of_previous_use:%s"
+                   % any(frozenset(e["session"] for e in c["evs"]) in seen and len(c["evs"]) >= 2 for c in case["calls"]))
+    return out
+
+
 def features(case, obs):
     spec = case.get("est_spec") or {}
     if spec.get("stateful") and case["estimate"]:
@@ -1011,6 +1295,8 @@ def features(case, obs):
             out.append("sorted_n>=2")
         if c.get("_same_view") is not None:
             out.append("interface_constraint_view==network:%s" % c["_same_view"])
+    if case.get("prior_uses") is not None:
+        out.extend(_multi_features(case, obs))
     for kind in case.get("history") or []:
         out.append("history:" + kind)
     if case.get("history") is not None:
